@@ -177,5 +177,61 @@ func absCond(cond ssa.Value, path []*ssa.BasicBlock, cls Classifier, c AbsCase) 
 			return bv, true, ""
 		}
 	}
+	// a pure predicate helper of the repository (one bool result, no effects): executed
+	// abstractly with its parameters standing for the arguments of this call
+	if call, ok := cond.(*ssa.Call); ok {
+		if g := call.Call.StaticCallee(); g != nil && InRepo(g) && len(g.Blocks) > 0 && absDepth < 3 && isPurePredicate(g) {
+			b := Binding{}
+			for i, p := range g.Params {
+				if i < len(call.Call.Args) {
+					b[p] = PhiAlong(call.Call.Args[i], path)
+				}
+			}
+			undo := Bind(b)
+			absDepth++
+			gp, okw, why := AbsWalk(g.Blocks[0], nil, nil, cls, c)
+			var val, known bool
+			if okw && len(gp) > 0 {
+				if ret, isRet := gp[len(gp)-1].Instrs[len(gp[len(gp)-1].Instrs)-1].(*ssa.Return); isRet && len(ret.Results) == 1 {
+					val, known, why = absCond(ret.Results[0], gp, cls, c)
+				} else {
+					why = "predicate helper does not end in a return"
+				}
+			}
+			absDepth--
+			undo()
+			if known {
+				return val, true, ""
+			}
+			return false, false, "inside " + g.Name() + ": " + why
+		}
+	}
 	return false, false, "undecidable condition " + Describe(cond)
+}
+
+var absDepth int
+
+// isPurePredicate: g returns one bool and contains no stores, no sends, no go/defer and no
+// calls other than to further such functions or built-ins (len, cap).
+func isPurePredicate(g *ssa.Function) bool {
+	res := g.Signature.Results()
+	if res.Len() != 1 || res.At(0).Type().String() != "bool" {
+		return false
+	}
+	pure := true
+	Instrs(g, func(in ssa.Instruction) {
+		switch x := in.(type) {
+		case *ssa.Store, *ssa.Send, *ssa.Go, *ssa.Defer, *ssa.MapUpdate, *ssa.Panic:
+			pure = false
+		case *ssa.Call:
+			if _, isB := x.Call.Value.(*ssa.Builtin); isB {
+				return
+			}
+			if f := x.Call.StaticCallee(); f != nil && InRepo(f) && f != g && len(f.Blocks) > 0 && f.Signature.Results().Len() == 1 && f.Signature.Results().At(0).Type().String() == "bool" {
+				return
+			}
+			pure = false
+		}
+	})
+	return pure
 }
